@@ -94,7 +94,7 @@ rot properties
 from operator  import mul, add
 from functools import reduce
 
-from sympy                    import Indexed, sympify
+from sympy                    import Indexed, sympify, log
 from sympy                    import Matrix, ImmutableDenseMatrix
 from sympy                    import cacheit
 from sympy.core               import Basic
@@ -771,6 +771,9 @@ class Grad(DiffOperator):
                 expr = reduce(add, [e*expr*i for i in a.args])
             else:
                 expr = e*a*expr
+            if not e.is_number:
+                # the exponent varies too: add log(b) * b**e * grad(e)
+                expr = expr + log(b) * b**e * cls(e)
             return expr
 
         # ... check consistency between space type and the operator
